@@ -42,6 +42,8 @@ static std::string doReader(const std::vector<std::string>& a) {
     else if (a[1] == "utf16be") enc = "UTF-16BE";
     else if (a[1] == "latin1") enc = "ISO-8859-1";
     else if (a[1] == "ascii") enc = "US-ASCII";
+    else if (a[1] == "ucs4le") enc = "UCS-4 (LE)";
+    else if (a[1] == "ucs4be") enc = "UCS-4 (BE)";
     else return "bad-request";
     XMLReader::XMLVersion ver = a[2] == "11" ? XMLReader::XMLV1_1 : XMLReader::XMLV1_0;
     XMLSize_t low = (XMLSize_t)atol(a[3].c_str());
@@ -102,6 +104,15 @@ static std::string doReader(const std::vector<std::string>& a) {
                 XMLSize_t n = buf.getLen();
                 out += std::string(1, c) + ":" + (r ? "1" : "0") + ":" + std::to_string((long)n) + ":" + std::to_string((unsigned long long)h) +
                        ":" + showHex(buf.getRawBuffer(), n < 6 ? n : 6, 4);
+            } else if (c == 'Q') {
+                buf.reset();
+                int colon = -2;
+                bool r = rd->getQName(buf, &colon);
+                uint64_t h = 0;
+                for (XMLSize_t i = 0; i < buf.getLen(); i++) h = hstep(h, buf.getRawBuffer()[i]);
+                XMLSize_t n = buf.getLen();
+                out += std::string("Q:") + (r ? "1" : "0") + ":" + std::to_string((long)n) + ":" + std::to_string((unsigned long long)h) +
+                       ":" + showHex(buf.getRawBuffer(), n < 6 ? n : 6, 4) + ":" + std::to_string(colon);
             } else if (c == 'm') {
                 buf.reset();
                 rd->movePlainContentChars(buf);
@@ -145,6 +156,47 @@ static std::string doReader(const std::vector<std::string>& a) {
 }
 
 static std::string gTmpDir = ".";
+
+// xcsplit <encoding name> <hex bytes>: prefix-stability of a (possibly ICU-provided) transcoder -- decoding the bytes in
+// two blocks split at k (carrying the bytes the first call did not eat, as XMLReader::refreshRawBuffer does) must give
+// the same characters as decoding them at once, for every k
+#include <xercesc/util/TransService.hpp>
+static bool decodeBlocks(const char* enc, const std::vector<uint32_t>& b, size_t split, std::vector<XMLCh>& out) {
+    XMLTransService::Codes rc;
+    XMLCh* encX = XMLString::transcode(enc);
+    std::unique_ptr<XMLTranscoder> t(XMLPlatformUtils::fgTransService->makeNewTranscoderFor(encX, rc, 16 * 1024));
+    XMLString::release(&encX);
+    if (!t) return false;
+    std::vector<XMLByte> raw(b.size() + 8, 0);
+    for (size_t i = 0; i < b.size(); i++) raw[i] = (XMLByte)b[i];
+    std::vector<XMLCh> buf(b.size() * 2 + 16);
+    std::vector<unsigned char> sizes(b.size() * 2 + 16);
+    size_t pos = 0, avail = split;
+    int guard = 0;
+    while (pos < b.size() && guard++ < 64) {
+        XMLSize_t eaten = 0;
+        XMLSize_t n = t->transcodeFrom(raw.data() + pos, avail - pos, buf.data(), buf.size(), eaten, sizes.data());
+        out.insert(out.end(), buf.begin(), buf.begin() + n);
+        pos += eaten;
+        if (avail < b.size()) avail = b.size();          // second block: everything that is left
+        else if (eaten == 0) break;
+    }
+    return true;
+}
+static std::string doXcSplit(const std::vector<std::string>& a) {
+    std::vector<uint32_t> b = parseHex(a[2], 2);
+    try {
+        std::vector<XMLCh> whole;
+        if (!decodeBlocks(a[1].c_str(), b, b.size(), whole)) return "noenc";
+        for (size_t k = 1; k < b.size(); k++) {
+            std::vector<XMLCh> parts;
+            decodeBlocks(a[1].c_str(), b, k, parts);
+            if (parts != whole) return "diff k=" + std::to_string(k) + " whole=" + showHex(whole.data(), whole.size(), 4) +
+                                       " blocks=" + showHex(parts.data(), parts.size(), 4);
+        }
+        return "ok " + std::to_string(b.size()) + " " + showHex(whole.data(), whole.size() < 8 ? whole.size() : 8, 4);
+    } catch (const XMLException& e) { return "exc " + excName(e); }
+}
 
 // external DTD subset / external entities: every external id resolves to the request's <extspec> bytes, delivered
 // from memory (one-shot requests) or through the same chunking as the document entity
@@ -262,6 +314,7 @@ int main(int argc, char** argv) {
         std::string r = "bad-request";
         if (a.size() >= 6 && a[0] == "rd") r = doReader(a);
         else if (a.size() >= 5 && a.size() <= 7 && a[0] == "doc") r = doDoc(a);
+        else if (a.size() == 3 && a[0] == "xcsplit") r = doXcSplit(a);
         std::cout << r << "\n";
     }
     std::cout.flush();
